@@ -36,14 +36,16 @@ def default_identifier_range(ctx):
     f = ctx.anchor(CORE + "keys::default_identifiers")
     if not f:
         return
-    t = FnView.get(P, f).cx.local(0)
-    good = is_call(t, name="collect") and is_call(t[2][0], name="map") and is_call(t[2][0][2][0], name="new") and \
-        "RangeInclusive" in t[2][0][2][0][1] and t[2][0][2][0][2] == (("const", "u16", 1), ("arg", 1))
+    v = FnView.get(P, f)
+    t = v.cx.local(0)
+    # one identifier per element of the inclusive range, in order — `.map(..).collect()` or a push loop
+    m = mapping_of(P, f, v, t)
+    src = m["source"] if m else None
+    good = bool(m) and m["key"] is None and is_call(src, name="new") and "RangeInclusive" in src[1] and \
+        src[2] == (("const", "u16", 1), ("arg", 1))
     if good:
-        cl = t[2][0][2][1]
-        cf = P.fns.get(cl[1]) if cl[0] == "closure" else None
-        ct = TermCx(P, cf).local(0) if cf else None
-        good = ct is not None and is_call(ct, name="expect") and is_call(ct[2][0], name="try_from") and ct[2][0][2][0] == ("arg", 2)
+        ct = m["val"]
+        good = is_call(ct, name="expect") and is_call(ct[2][0], name="try_from") and ct[2][0][2][0] == ITEM
     ctx.check(good and {k for k in adaptor_inventory(f) if k not in LOOKUPS} == set(), "PROV", f.key, "identifiers==1..=max_signers",
               "default identifiers must be Identifier::try_from(i) for every i in the inclusive range 1..=max_signers: %s" % fmt(t)[:160], f.loc)
 
